@@ -95,6 +95,17 @@ class Frame:
         self.tysub = {}
 
 
+class _Overlay(dict):
+    """environment view that reads through to a base env and records writes separately (bindings of one or-pattern alternative)"""
+    def __init__(self, base, rec):
+        dict.__init__(self, base)
+        self.rec = rec
+
+    def __setitem__(self, k, v):
+        dict.__setitem__(self, k, v)
+        self.rec[k] = v
+
+
 class Interp:
     def __init__(self, prog, summaries, opts=None):
         self.prog = prog
@@ -314,9 +325,25 @@ class Interp:
         if k in ("Ref", "Deref"):
             return self.pat_test(p["p"], val, env, fr)
         if k == "Or":
+            # each alternative binds the same names; a name's value is the one from the first alternative that matches
             c = FALSE
+            alts = []
             for sp in p["ps"]:
-                c = or_(c, self.pat_test(sp, val, env, fr))
+                e2 = {}
+                ci = self.pat_test(sp, val, _Overlay(env, e2), fr)
+                alts.append((ci, e2))
+                c = or_(c, ci)
+            names = []
+            for _, e2 in alts:
+                for n_ in e2:
+                    if n_ not in names:
+                        names.append(n_)
+            for n_ in names:
+                v = None
+                for ci, e2 in reversed(alts):
+                    if n_ in e2:
+                        v = e2[n_] if v is None else ite(ci, e2[n_], v)
+                env[n_] = v
             return c
         self.note(fr, "unmodelled refutable pattern %s" % k)
         return mk("matches?", val, k or "?")
